@@ -73,6 +73,27 @@ def apply_placement(pl, verts):
     return s * (V @ R.T) + t, R, t, s
 
 
+ANCHORS = ["centroid", "centroid", "vertex_mean", "vertex", "bbox"]
+
+
+def anchored(mode, V, faces=None, k=0):
+    """Translate V so that a distinguished point of the solid sits at the origin (the commonest way users hand shapes
+    over, and a special case for code that tests `center == 0`): its centroid (needs faces), the mean of its vertices,
+    one of its vertices, or the centre of its bounding box."""
+    V = np.asarray(V, dtype=float)
+    if mode == "centroid":
+        p = geom.mesh_moments(V, faces)["centroid"] if faces is not None else V.mean(axis=0)
+    elif mode == "vertex_mean":
+        p = V.mean(axis=0)
+    elif mode == "vertex":
+        p = V[k % len(V)]
+    elif mode == "bbox":
+        p = (V.min(axis=0) + V.max(axis=0)) / 2
+    else:
+        return V
+    return V - np.asarray(p, dtype=float)
+
+
 def is_identity_rotation(pl):
     return pl["quat"][1:] == [0.0, 0.0, 0.0]
 
